@@ -28,7 +28,9 @@ ErrorItems == {Er("hash_error", 1, 0, 0), Er("unknown_dir", 1, 0, 0), Er("unterm
                \* errors raised by the #if / #elif expression evaluator (they take the file name from the preprocessor's context)
                Er("if_undef", 1, 0, 0), Er("elif_undef", 3, 1, 1), Er("if_trailing", 1, 0, 0),
                \* errors raised by the code generator through compiler_error (Error::Compiler)
-               Er("cond_partial", 4, 2, 2), Er("cond_partial0", 4, 2, 2), Er("arith_partial", 4, 2, 2), Er("arith_partial0", 4, 2, 2)}
+               Er("cond_partial", 4, 2, 2), Er("cond_partial0", 4, 2, 2), Er("arith_partial", 4, 2, 2), Er("arith_partial0", 4, 2, 2),
+               \* an error located at the first token of a declaration (with where = "top": at offset 0 of the whole text)
+               Er("complex_type", 1, 0, 0), Er("complex_local", 3, 1, 1), Er("complex_param", 3, 1, 1)}
 
 RECURSIVE Sum(_, _)
 Sum(s, i) == IF i > Len(s) THEN 0 ELSE s[i].n + Sum(s, i + 1)
@@ -39,7 +41,7 @@ Init == prefix = <<>> /\ err = Er("none", 0, 0, 0) /\ where = "" /\ crlf = FALSE
 Next == /\ ~done
         /\ \/ /\ Len(prefix) < MaxPrefix /\ \E it \in PrefixItems : prefix' = Append(prefix, it)
               /\ UNCHANGED <<err, where, crlf, done>>
-           \/ /\ \E e \in ErrorItems, w \in {"main", "hdr"}, c \in BOOLEAN : err' = e /\ where' = w /\ crlf' = c
+           \/ /\ \E e \in ErrorItems, w \in {"main", "hdr"} \cup (IF prefix = <<>> THEN {"top"} ELSE {}), c \in BOOLEAN : err' = e /\ where' = w /\ crlf' = c
               /\ done' = TRUE /\ UNCHANGED prefix
 Spec == Init /\ [][Next]_vars
 
@@ -47,7 +49,9 @@ Spec == Init /\ [][Next]_vars
 MainLine == 1 + Sum(prefix, 1) + 1
 HdrFill == 2          \* the header holding the error item starts with two filler lines
 Expected ==
-  IF where = "main"
+  IF where = "top"     \* the error item is the very first text of main.c (no prologue line)
+  THEN [file |-> "main.c", lo |-> 1 + err.lo, hi |-> 1 + err.hi, incl |-> FALSE, inclLine |-> 0]
+  ELSE IF where = "main"
   THEN [file |-> "main.c", lo |-> MainLine + err.lo, hi |-> MainLine + err.hi, incl |-> FALSE, inclLine |-> 0]
   ELSE [file |-> "errh.h", lo |-> HdrFill + 1 + err.lo, hi |-> HdrFill + 1 + err.hi, incl |-> TRUE, inclLine |-> MainLine]
 Emit == done => PrintT("CASE " \o ToJson([prefix |-> prefix, err |-> err, where |-> where, crlf |-> crlf, expected |-> Expected]))
